@@ -2,8 +2,8 @@
 
 T-gen : translator/gen_conf_kernels.py regenerates coq/Gen/ConfKernels.v from the Python text of the numba kernels
         compute_ambiguity, compute_ambiguity_and_sampled_ambiguity (ambiguity.py), compute_risk (risk.py) and
-        compute_interval_bounds (interval_bounds.py) -- prelude, pixel body of the prange nest, return -- statement by
-        statement into the numpy semantics of coq/Lib/NpVec.v, fail closed (and checks the call sites in the three
+        compute_interval_bounds (interval_bounds.py) -- prelude, pixel body of the prange nest, return -- and of
+        Ambiguity.normalize_with_percentile, statement by statement into the numpy semantics of coq/Lib/NpVec.v, fail closed (and checks the call sites in the three
         confidence_prediction methods: orientation of the volume for max measures, sampled ambiguity handed to
         compute_risk, type_factor); Proofs/ConfGenP.v re-proves at every run that the generated kernels equal
         Model/Confidence.v on every pixel curve and every volume with two distinct finite costs, and Props/C12.v
@@ -57,8 +57,9 @@ ASSUMES = [
     "+-inf as the compiled parallel kernels give, NaN-skipping nanmin/nanmax/nanmean, repeat / reshape / T / flatten / "
     "boolean-mask assignment and indexing, negative index wrap-around, partial operations fail) is hand-written and "
     "validated only through the correspondence of the model it is proved equal to; float32 storage of the result "
-    "arrays and float rounding are outside it (bridging rule b); normalize_with_percentile, interval_regularization, "
-    "std_intensity and allocate_confidence_map are NOT translated (hand-written model, correspondence only)",
+    "arrays and float rounding are outside it (bridging rule b); np.percentile is a parameter of the generated "
+    "normalize_with_percentile (contract: linear interpolation); interval_regularization, std_intensity and "
+    "allocate_confidence_map are NOT translated (hand-written model, correspondence only)",
     "std_intensity: the model band holds the window variance (the square root is not rational); band^2 is "
     "compared with it (NaN pattern exactly); the float 10**-15 of the tiny-variance zeroing is data",
     "transparency: proved for abstract steps (C12_confidence_steps_transparent) and instantiated "
@@ -97,10 +98,16 @@ GEN_OBLIGATIONS = [
     "C12_gen_ambiguity_def, C12_gen_risk_order, C12_gen_risk_finite, C12_gen_bounds_bracket_wta: the headline theorems "
     "restated on the generated kernels; C12_gen_argsort_contract_satisfiable; Example C12_example_gen (vm_compute of "
     "the generated kernels on a curve with a NaN hole and a tie)",
+    "C12_gen_normalize_eq / C12_gen_normalised_in_01: the generated Ambiguity.normalize_with_percentile (np.copy, two "
+    "np.percentile, np.clip(out=), np.min, np.max, zero-range guard, rescaling) = Model.Confidence.normalize_percentile "
+    "with the guard, for every non-empty ambiguity map and every np.percentile that interpolates linearly between the "
+    "order statistics (C12_gen_percentile_contract_satisfiable); every value finite in [0, 1]",
     "translator gen_conf_kernels: decorator njit(signature, parallel=literal_eval(os.environ.get(...)), cache=True) and "
     "numba signature of the four kernels, loop headers prange(n_row) / prange(n_col), stores only at [row, col], "
     "in-place writes only into fresh local arrays, call sites of the three confidence_prediction methods "
-    "(cost_volume = -cost_volume for max measures; type_factor -1.0 / 1.0; cv['disp'] as disparity axis)",
+    "(cost_volume = -cost_volume for max measures; normalisation only when self._normalization, then ambiguity = 1 - "
+    "ambiguity, then allocate_confidence_map; self._percentile = self._PERCENTILE; type_factor -1.0 / 1.0; cv['disp'] as "
+    "disparity axis)",
 ]
 
 ETAS = [(0.7, 0.01), (0.5, 0.125), (0.3, 0.1)]
